@@ -40,7 +40,7 @@ WHAT = {
     "CKErr": "error / no error differs from the model (missing wrapper, empty event id)",
     "CKConsumed": "a rotation payload was not consumed",
     "CKPanic": "the filter panicked",
-    "CKAtomic": "a value produced under concurrent rotation mixes components of different rotations",
+    "CKAtomic": "a value produced while the filter was rotated mixes components of different key generations",
 }
 
 ARGS = {
@@ -62,7 +62,7 @@ ASSUMPTIONS = {
             "copystructure (deep copy that zeroes unexported fields) is modelled by Encrypt.copyz, validated by the correspondence",
             "a zero / nil payload with a missing wrapper and an encrypting configuration yields an error, not the same event (the wrapper check comes first)"],
     "C16": ["AEAD (AES-GCM of go-kms-wrapping), wrapper derivation, HKDF and HMAC-SHA256 are Section functions with the hypotheses dec k (enc k n m) = Some m; determinism is functionality",
-            "each encrypt()/hmacSha256() call and each Rotate / rotation payload is one atomic step (they run under Filter.l); the wrapper nil-check and NewEventWrapper read Filter.Wrapper outside / under the read lock (F5, another engine)",
+            "each encrypt()/hmacSha256() call, each Rotate / rotation payload and the head of Process of an event with per-event wrapper info (wrapper derivation + resolution of its salt / info) is one atomic step: they run under Filter.l",
             "the harness re-implements HKDF, HMAC framing, the per-event key derivation, the BlobInfo wire format and AES-GCM open independently of the library"],
 }
 _NOTE = ("Trusted: Coq 8.16.1 kernel + vm_compute; no axioms (Print Assumptions: closed under the global context); the Go correspondence harness encrypth: "
@@ -80,7 +80,7 @@ MANIFEST = {
                     "PARTIAL: 'the original is untouched' is tied dynamically (deep snapshot before/after on every case), not proved; tie: same generator as C09, structural diff output vs input",
             "design_ref": "5.C10", "note": _NOTE, "technique": _TECH, "engine": "coq-encrypt"},
     "C16": {"text": "Crypto.v (key state (wrapper, salt, info), Rotate / rotation payload / event operations, key_in_force with per-event derived wrapper and salt/info precedence, framing over Base64.v); theorems "
-                    "b64url_roundtrip, decrypt_roundtrip (all byte strings), hmac_value, hmac_deterministic, rotation_takes_effect (all histories), value_atomic (all interleavings of per-value steps with rotations); "
+                    "b64url_roundtrip, decrypt_roundtrip (all byte strings), hmac_value, hmac_deterministic, rotation_takes_effect (all histories), value_atomic / value_atomic_plain / value_atomic_event (all interleavings of rotations, event starts and per-value steps: every value of every event kind is produced under ONE key generation); "
                     "tie: encrypth -crypto runs histories of Rotate / rotation payloads / events (salt/info on filter and event, event id present/absent, empty and non-UTF-8 values), "
                     "an independent implementation reports which (key, salt, info) reproduces each output",
             "design_ref": "5.C16", "note": _NOTE, "technique": _TECH, "engine": "coq-encrypt"},
@@ -192,7 +192,7 @@ def run(ctx, prop=None):
         if kind not in rel:
             others += 1
             continue
-        sig = "%s@%s" % (kind, ({0: "step", 1: "concurrent-rotation", 2: "callback-rotation"}.get(cl, "step") if crypto else SHAPES.get(w, str(w))))
+        sig = "%s@%s" % (kind, ({0: "step", 1: "concurrent-rotation", 2: "event-fallback-rotation"}.get(cl, "step") if crypto else SHAPES.get(w, str(w))))
         affected.setdefault(sig, set()).add(cid)
         sz = case_size(cases[cid])
         if sig not in sigs or (sz, cid) < sigs[sig][:2]:
